@@ -2,6 +2,29 @@ import os, sys
 sys.path.insert(0, os.path.dirname(os.path.abspath(__file__)))
 from common import *
 PROPERTY = 'C12'
+import struct, math
+def _d(bits): return struct.unpack('<d', struct.pack('<Q', bits))[0]
+def _b(x): return struct.unpack('<Q', struct.pack('<d', x))[0]
+def concretise_ratio(vec):
+    """abstract counterexample (ratio r, abstract product p = 'fl(UINT32_MAX*r)') -> real ratios whose real product is p or next to it"""
+    alts = []
+    ps = [_d(b) for t, b in vec if t == 'mf64']
+    for p in ps:
+        if not (0.0 < p < 4294967295.0): continue
+        r = p / 4294967295.0
+        cands = [r]
+        lo = hi = r
+        for _ in range(6):
+            lo = math.nextafter(lo, 0.0); hi = math.nextafter(hi, 1.0); cands += [lo, hi]
+        for rr in cands:
+            if 0.0 < rr < 1.0:
+                # keep the harness' own values, replace the FIRST harness double by rr (models' values stay; natively they are skipped)
+                out = []; done = False
+                for t, b in vec:
+                    if t == 'f64' and not done: out.append((t, _b(rr))); done = True
+                    else: out.append((t, b))
+                alts.append(out)
+    return alts
 TOSTR = '_ZNSt7__cxx119to_stringEd'
 base = dict(src='c12_samplers.cc', overrides=TS_OVERRIDES + [TOSTR], models=TS_MODELS + ['libc.c', 'cxxrt.c', 'stdstring.c', 'c12_env.c'],
             gen_models=gen_regex_tables)
@@ -16,6 +39,7 @@ QUERIES = [
   dict(name='threshold_monotone_abs', harness='c12_abs', entry='h_threshold_monotone', unwind=3, unwindset=US, timeout=900, abstracted=True,
        solvers=['cadical', 'minisat'], shape='every pair of non-NaN doubles r1<=r2; fl(UINT32_MAX*r) abstracted by the IEEE monotonicity lemma'),
   dict(name='threshold_formula_abs', harness='c12_abs', entry='h_threshold_formula', unwind=3, unwindset=US, timeout=900, abstracted=True, solvers=['cadical', 'minisat'],
+       concretise=concretise_ratio,
        shape='every ratio in (0,1): result equals the documented split formula on the same product (multiplication abstracted consistently on both sides)'),
   dict(name='ratio_decision', harness='c12_uf', entry='h_ratio_decision', unwind=18, unwindset=US, timeout=900, shape='every ratio, trace id, parent context; CalculateThreshold as uninterpreted function + proven end points'),
   dict(name='parent_based', harness='c12', entry='h_parent_based', unwind=18, unwindset=US, timeout=600, shape='every parent context/flags, delegate decision'),
